@@ -87,6 +87,75 @@ def gen1(data: bytes):
                                tp.below(1 << 30))
         return {"fam": 1, "src": "soup", "a": S.shuffled_recipe(tp, m),
                 "b": rb, "kind": "element"}
+    if tp.chance(40):
+        # ligand redistribution: the same ligands dealt differently to a few
+        # centres (2 CH2F2 vs CH4 + CF4): only multiplicities differ
+        cls = tp.pick(["MG", "SMG", "CRG", "SCRG"])
+        zc = tp.pick([6, 14, 5, 7, 15])
+        deg = tp.pick([2, 3, 4, 4])
+        ncen = 2 + tp.below(2)
+        lig_el = tp.shuffle([1, 9, 17, 35, 8])[:2 + tp.below(2)]
+        ligs = [tp.pick(lig_el) for _ in range(ncen * deg)]
+        if tp.chance(128):
+            ligs = [lig_el[(i // (deg // 2 or 1)) % 2]
+                    for i in range(ncen * deg)]     # even multiplicities
+
+        def deal(order):
+            m = Model(cls)
+            nid = 0
+            for c in range(ncen):
+                m.add_atom(nid, zc)
+                cen = nid
+                nid += 1
+                for z in order[c * deg:(c + 1) * deg]:
+                    m.add_atom(nid, z)
+                    m.add_bond(cen, nid)
+                    nid += 1
+            return m
+
+        m1 = deal(ligs)
+        m2 = deal(sorted(ligs) if tp.chance(128) else tp.shuffle(ligs))
+        rb, _ = S.variant_from(m2, list(S.renaming(tp, m2.atoms).items()),
+                               tp.below(1 << 30))
+        return {"fam": 1, "src": "redistribution",
+                "a": S.shuffled_recipe(tp, m1), "b": rb, "kind": None}
+    if tp.chance(40):
+        # degenerate exchange: X-Y + X-Y -> X-Y + X-Y (reactant and product
+        # alike, only the transition structure tells it from two idle X-Y),
+        # also against the other pairing of partners
+        cls = tp.pick(["CRG", "SCRG", "CRG"])
+        zx, zy = tp.shuffle([1, 17, 9, 6, 8, 35])[:2]
+        sub = tp.pick([None, 1, 9])
+
+        def build(kind):
+            m = Model(cls)
+            for i, z in enumerate((zx, zy, zx, zy)):
+                m.add_atom(i, z)
+            if sub is not None and zx in (6,):
+                for j, c in enumerate((0, 2)):
+                    for t in range(3):
+                        m.add_atom(10 + 3 * j + t, sub)
+                        m.add_bond(c, 10 + 3 * j + t)
+            if kind == "idle":
+                m.add_bond(0, 1)
+                m.add_bond(2, 3)
+            elif kind == "exchange":
+                m.add_bond(0, 1, "broken")
+                m.add_bond(2, 3, "broken")
+                m.add_bond(0, 3, "formed")
+                m.add_bond(2, 1, "formed")
+            else:                       # spectator contact only
+                m.add_bond(0, 1)
+                m.add_bond(2, 3)
+                m.add_bond(0, 3, "fleeting")
+            return m
+
+        k1, k2 = tp.shuffle(["idle", "exchange", "contact"])[:2]
+        m1, m2 = build(k1), build(k2)
+        rb, _ = S.variant_from(m2, list(S.renaming(tp, m2.atoms).items()),
+                               tp.below(1 << 30))
+        return {"fam": 1, "src": "degenerate-exchange",
+                "a": S.shuffled_recipe(tp, m1), "b": rb, "kind": None}
     case = c02.gen_pair(tp, sources=(4, 6, 0, 4, 0))
     case["fam"] = 1
     return case
